@@ -277,7 +277,17 @@ class G:
         if k < 0.93 or self.clean:
             n = r.choice([1, 1, 2, 2, 3])
             compl = (not self.clean) and r.random() < 0.25
-            rs = [self.rng_() for _ in range(n)]
+            rs = []
+            allow_overlap = (not self.clean) and r.random() < 0.15  # the parser rejects overlapping ranges
+            for _ in range(n):
+                for _attempt in range(6):
+                    x = self.rng_()
+                    lo, hi = x[0], (x[0] if x[2] is None else x[2])
+                    if allow_overlap or all(hi < y[0] or (y[0] if y[2] is None else y[2]) < lo for y in rs):
+                        rs.append(x)
+                        break
+            if not rs:
+                rs = [self.rng_()]
             if compl and r.random() < 0.8:
                 rs = [x for x in rs if x[0] < 0x10000 and (x[2] is None or x[2] < 0x10000)] or [(0x61, False, None, False)]
             return ("s", compl, rs)
@@ -404,7 +414,7 @@ def trees(ctx: Ctx) -> Iterator[Tuple[str, str]]:
             if regex is not None:
                 yield retree_wire.enc(regex), "corpus"
     yield from enumerated()
-    for i in range(ctx.n(2500, 60000)):
+    for i in range(ctx.n(1200, 40000)):
         g = G(ctx.rng, clean=(i % 4 != 0))
         yield wire_of(g.regex()), ("random-clean" if g.clean else "random-any")
 
@@ -612,7 +622,7 @@ def judge(ctx: Ctx, p: str, strings: Optional[List[str]] = None, n_random: int =
 
     Returns {"status", "fixed", "failures": [(sig, what, s)], "checked": n}.
     """
-    res: Dict[str, Any] = {"status": "", "fixed": None, "failures": [], "checked": 0, "matched": 0}
+    res: Dict[str, Any] = {"status": "", "fixed": None, "failures": [], "checked": 0, "matched": 0, "wire": None}
     st, regex = parse_text(p)
     if regex is None:
         res["status"] = "not-accepted:" + st  # outside the quantifier of C17 (front end is C16's)
@@ -624,6 +634,7 @@ def judge(ctx: Ctx, p: str, strings: Optional[List[str]] = None, n_random: int =
         return res
     st, fixed, site = impl_fix_text(p)
     if fixed is None:
+        res["wire"] = retree_wire.enc(regex)
         res["status"] = st
         res["failures"].append(
             (f"C17:{st}:{site}", f"fix_pattern_for_utf16 raised {st[6:]} in {site} on an accepted pattern", None)
@@ -637,6 +648,7 @@ def judge(ctx: Ctx, p: str, strings: Optional[List[str]] = None, n_random: int =
         res["failures"].append(("C17:fixed-pattern-invalid", f"the rewritten pattern {fixed!r} is not a valid regex: {e}", None))
         return res
     res["status"] = "ok"
+    res["wire"] = retree_wire.enc(regex)
     facts = tree_facts(regex)
     if strings is None:
         strings = strings_for(ctx, regex, facts, n_random)
@@ -767,11 +779,9 @@ def _run(ctx: Ctx, with_model: bool) -> None:
             ctx.hit("oracle:" + sig)
         if i % 301 == 0:
             ctx.sample({"pattern": p, "fixed": res["fixed"], "status": res["status"], "strings": res["checked"]})
-        if with_model and res["status"] in ("ok",) or (with_model and res["status"].startswith("crash")):
-            st, regex = parse_text(p)
-            if regex is not None:
-                lines.append("fix " + retree_wire.enc(regex))
-                idx.append(i)
+        if with_model and res.get("wire") is not None:
+            lines.append("fix " + res["wire"])
+            idx.append(i)
     if with_model and lines:
         mouts = ctx.model(lines)
         for i, m in zip(idx, mouts):
